@@ -3,6 +3,7 @@ import Dashu.Proofs.Float.SoftF32
 import Dashu.Proofs.Float.Log2Ub
 import Dashu.Proofs.Float.Log2Large
 import Dashu.Proofs.Float.Log2Witness
+import Dashu.Proofs.Float.DigitsLb
 /-
   C10 (and the C03 / C14 users of the `f32` estimators): the IEEE-754 binary32 facts that `Props/C10Coarse.lean` and
   `Props/C10Est.lean` carry as hypotheses about an abstract rounding `fl` — here stated for the CONCRETE rounding function
@@ -215,6 +216,52 @@ theorem digits_ub_sound_libm (log2f : ℝ → ℝ) (h : Log2fSound log2f) (B : N
 /-- non-vacuity of (LIBM): the correctly rounded logarithm `x ↦ rne32 (log₂ x)` satisfies `Log2fSound` (the hypothesis asks
     only for one ulp, which is what libm implementations document) -/
 theorem libm_hypothesis_satisfiable : Log2fSound (fun x => rne32 (Real.logb 2 x)) := log2fSound_correctlyRounded
+
+/-! ### the LOWER digit estimate `Repr::digits_lb` (round 6)
+
+  `digits_lb = match B { 2 => lb, 10 => lb * LOG10_2, _ => lb / log2_bounds(B).1 } as usize`, `lb = log2_bounds(n).0`
+  (float/src/repr.rs; used by `Context::div`'s pre-shrink and `sub_ulp`).  `LOG10_2` is on the unsafe side for a lower
+  estimate (`LOG10_2 > log₁₀ 2`), so `digits_lb ≤ digits − 1` is NOT a consequence of `lb ≤ log₂ n` for base 10; the enclosure that
+  the model's hypothesis `DlbSound` asks — `digits_lb ≤ digits` — is, by the relative error of the rounded product. -/
+
+/-- **(C)** the constant from the other side: `log₁₀ 2 ≤ LOG10_2 ≤ log₁₀ 2 · (1 + 2⁻²²)` (through `2^13301 ≤ 10^4004`, `10^643 ≤ 2^2136`) -/
+theorem LOG10_2_two_sided : Real.logb 10 2 ≤ log10_2_f32 ∧ log10_2_f32 ≤ Real.logb 10 2 * (1 + 1 / 4194304) :=
+  ⟨logb_10_2_le, log10_2_f32_le⟩
+
+/-- **`digits_lb ≤ digits` under IEEE arithmetic**: only `0 ≤ lb ≤ log₂ n` and `log₂ B ≤ log2_bounds(B).1` remain assumed -/
+theorem digits_lb_sound_ieee (B : Nat) (hB : 2 ≤ B) (n : Nat) (hn : 0 < n) (lb ubB : ℝ)
+    (hlb0 : 0 ≤ lb) (hlb : lb ≤ Real.logb 2 n) (hsmall : digits B n ≤ 2 ^ 21) (hub : Real.logb 2 B ≤ ubB) :
+    digitsLbReal B rne32 lb log10_2_f32 ubB ≤ digits B n :=
+  digitsLb_le_digits B hB n hn rne32 lb _ ubB hlb0 hlb rne32_mono rne32_natCast rne32_relRound hsmall
+    (by unfold log10_2_f32; norm_num) log10_2_f32_le hub
+
+/-- … and the enclosure hypothesis `DlbSound` (`Model/Float/Repr.lean`) of the theorems about `Context::div` / `sub_ulp` -/
+theorem dlb_sound_ieee (B : Nat) (hB : 2 ≤ B) (lb : Nat → ℝ) (ubB : ℝ)
+    (hA : ∀ n : Nat, 0 < n → 0 ≤ lb n ∧ lb n ≤ Real.logb 2 n) (hsmall : ∀ n : Nat, digits B n ≤ 2 ^ 21)
+    (hub : Real.logb 2 B ≤ ubB) :
+    DlbSound B (fun v => if v = 0 then 0 else digitsLbReal B rne32 (lb v.natAbs) log10_2_f32 ubB) :=
+  dlbSound_of_assumptions B hB rne32 lb _ ubB hA rne32_mono rne32_natCast rne32_relRound hsmall
+    (by unfold log10_2_f32; norm_num) log10_2_f32_le hub
+
+/-- **`digits_lb ≤ digits` from (LIBM) alone**: `log2_bounds` of the significand (`.0`) and of the base (`.1`) = their models, all
+    arithmetic `rne32`; every base of at most `2²⁴` bits, every significand of at most `2³⁰` bits and `2²¹` digits — the
+    counterpart of `digits_ub_sound_libm`; together: `digits_lb ≤ digits ≤ digits_ub` -/
+theorem digits_lb_sound_libm (log2f : ℝ → ℝ) (h : Log2fSound log2f) (B : Nat) (hB : 2 ≤ B) (hBw : Nat.log2 B + 1 ≤ 2 ^ 24)
+    (n : Nat) (hn : 0 < n) (hbits : Nat.log2 n + 1 ≤ 2 ^ 30) (hsmall : digits B n ≤ 2 ^ 21) :
+    digitsLbReal B rne32 (log2LbModel log2f n) log10_2_f32 (log2UbStd log2f B) ≤ digits B n :=
+  digitsLb_sound_libm log2f h B hB hBw n hn hbits hsmall
+
+/-- both estimates enclose the digit count, from (LIBM) alone -/
+theorem digits_estimates_enclose_libm (log2f : ℝ → ℝ) (h : Log2fSound log2f) (B : Nat) (hB : 2 ≤ B) (hBw : Nat.log2 B + 1 ≤ 2 ^ 24)
+    (n : Nat) (hn : 0 < n) (hbits : Nat.log2 n + 1 ≤ 2 ^ 30) (hsmall : digits B n ≤ 2 ^ 21) :
+    digitsLbReal B rne32 (log2LbModel log2f n) log10_2_f32 (log2UbStd log2f B) ≤ digits B n ∧
+    digits B n ≤ digitsUbReal B rne32 (log2UbModel log2f n) log10_2_f32 (log2LbStd log2f B) :=
+  ⟨digits_lb_sound_libm log2f h B hB hBw n hn hbits hsmall,
+   digits_ub_sound_libm log2f h B hB hBw n hn hbits
+     (le_trans (Nat.sub_le _ _) (le_trans hsmall (by norm_num)))⟩
+
+/-- non-vacuity of the size hypotheses (the doc example of `digits_lb`: decimal 1001) -/
+example : 2 ≤ 10 ∧ Nat.log2 10 + 1 ≤ 2 ^ 24 ∧ 0 < 1001 ∧ Nat.log2 1001 + 1 ≤ 2 ^ 30 ∧ digits 10 1001 ≤ 2 ^ 21 := by decide
 
 /-! ### the executable soft-float model computes `rne32`
 
